@@ -44,8 +44,18 @@ SetOK(i) ==
       broken == {laws[k][1] : k \in {k \in 1..Len(laws) : ~laws[k][2]}}
   IN broken = {} \/ Bad(broken, i, 0)
 
+\* a field row and its mate (the same node, field and value at the other place)
+FieldOK(i) ==
+  LET r == Table[i]
+      s == Table[r.mate]
+      paired == s.kind = "field" /\ s.node = r.node /\ s.field = r.field /\ s.v = r.v /\ s.place # r.place
+      broken == (IF E!FieldRoundTrip(r) THEN {} ELSE {"FieldRoundTrip"})
+                \cup (IF paired /\ E!PlaceAgnostic(r, s) THEN {} ELSE {"PlaceAgnostic"})
+  IN broken = {} \/ Bad(broken, i, r.mate)
+
 RowOK(i) == CASE Table[i].kind = "kw" -> KwOK(i)
               [] Table[i].kind = "set" -> SetOK(i)
+              [] Table[i].kind = "field" -> FieldOK(i)
               [] OTHER -> TRUE
 
 VARIABLES b, l
